@@ -16,17 +16,21 @@ c10_consts_tr.__name__ = "c10_consts"
 
 
 SPEC = {
-    # the placeholder constants are EXTRACTED from the Rust source (not hand-written): translate/c10_consts.py
-    # collects, per retain level of remove_dummy.rs, the literals of the starts_with(…) calls and the
-    # MethodName::… constants / == "…" comparisons (tolerant of renames, operand order, hoisted constants,
-    # braces), the value of the MethodName constants of duke and the prefix of the format!("p_{}", k.index) of
-    # insert_dummy.rs, and writes coq/C10/Consts.v.  It fails closed only when a literal cannot be found or
-    # is ambiguous; it does NOT check the shape of the conditions (the model hard-codes the shape; the
-    # correspondence run and the oracle tie it).  Theorem C10_placeholder_constants pins the generated values
-    # to the documented ones, so a changed prefix breaks an obligation.
+    # the placeholder constants AND the shape of every retain condition are EXTRACTED from the Rust source (not
+    # hand-written): translate/c10_consts.py collects, per retain level of remove_dummy.rs, the literals of the
+    # starts_with(…) calls and the MethodName::… constants / == "…" comparisons (tolerant of renames, operand order,
+    # hoisted constants, braces), the value of the MethodName constants of duke and the prefix of the
+    # format!("p_{}", k.index) of insert_dummy.rs, and writes coq/C10/Consts.v; and (round 4) it parses the value of
+    # every retain closure of both files as a boolean expression over its atoms (javadoc test, children is_empty(),
+    # the whole name test, the `match &v.info` check variable, info.is_diff()), the value of every arm of that match
+    # and which arms assign Action::Edit, and writes them as Gallina boolean functions into coq/C10/Shapes.v.
+    # Theorem C10_placeholder_constants pins the constants, C10_retain_shapes pins the shapes EXTENSIONALLY (for all
+    # values of the atoms, so reordering / parenthesising / De Morgan rewrites stay provable while a regrouping such
+    # as check && (info || doc || !children.is_empty()) does not), C10_model_uses_shapes states that the model's
+    # keep_* conditions are these functions of the model's atoms.  An atom the translator does not know fails closed.
     "translators": [c10_consts_tr],
     "trusted": [
-        "C10: translate/c10_consts.py (literal extractor: per retain level of remove_dummy.rs the arguments of starts_with(…), the MethodName::… constants and == \"…\" comparisons; the prefix of the one format!(\"<prefix>{}\", index) of insert_dummy.rs; the string literal of each MethodName constant referred to; identifiers resolved through const/static/let string definitions of the same file; canonical order). It fails closed only when a literal cannot be found or is ambiguous, and is deliberately blind to the SHAPE of the conditions (renaming closure parameters or locals, reordering || operands, hoisting a literal into a const, inlining get_simplified leave Consts.v unchanged — tested on mutated copies of the three source files); shape observations are reported as `translator note:` lines among the assumptions. Its output coq/C10/Consts.v is pinned by theorem C10_placeholder_constants; the shape of the keep-conditions and the three key-derived placeholders are tied by the correspondence run (every level's truth table) and the reference oracle only",
+        "C10: translate/c10_consts.py — (a) literal extractor: per retain level of remove_dummy.rs the arguments of starts_with(…), the MethodName::… constants and == \"…\" comparisons; the prefix of the one format!(\"<prefix>{}\", index) of insert_dummy.rs; the string literal of each MethodName constant referred to; identifiers resolved through const/static/let string definitions of the same file; canonical order; output coq/C10/Consts.v pinned by theorem C10_placeholder_constants. (b) shape extractor (round 4): the tail expression of every retain closure of remove_dummy.rs and insert_dummy.rs parsed as a boolean expression (||, &&, !, parentheses, braces) over the atoms javadoc.is_some() / javadoc[.as_ref()].is_diff(), <children>.is_empty(), the whole name test names[ns].as_ref().is_some_and(|x| disjunction of x.as_inner().starts_with(…) / x == …), the `let <check> = match &v.info {…}` variable and info.is_diff(); per arm of that match its boolean value and whether it assigns Action::Edit(…); whether every prefix test is on <x>.as_inner(); output coq/C10/Shapes.v (Gallina boolean functions) pinned by C10_retain_shapes for all values of the atoms and connected to the model by C10_model_uses_shapes. Fails closed on: a literal that cannot be found or is ambiguous, a term in a condition that is none of the known atoms, a name test that is not a plain disjunction, a statement in a closure other than nested retains / the check match / a local fn, a match that does not list the four Action variants. Tolerant of (tested on mutated copies by translate/c10_mutation_test.py, 16 mutations): renaming closure parameters or the check variable, reordering || operands, De Morgan rewrites, extra parentheses, hoisting a literal into a const. What it does not see: the three key-derived placeholders (k.name.clone(), p_<index>, get_inner_class_name) — tied by the correspondence run and the reference oracle; shape observations are reported as `translator note:` lines among the assumptions",
         "C10: the specification side of the theorems is the declarative reading in coq/C10/Theory.v (Placeholder, Kept*, Retained, Spec*, Changes, Rewritten), restated definition by definition in C10_kept_definitions / C10_insert_definitions so that the pinned statements are self-explanatory",
         "C10: the harness' independent reference of the documented rules (harness/src/bin/c10.rs ref_*: literal prefixes, bottom-up Option-returning recursion) is the oracle used to search for failing inputs on the implementation",
         "C10: the model's diff tree (coq/C10/Model.v mdiff) stores IndexMap keys beside the nodes; the harness builds MappingsDiff by inserting into the public IndexMaps",
